@@ -83,6 +83,12 @@ func envU(name string, def uint64) (v uint64) {
 // runOne executes one run in a fresh bubble.
 func runOne(t *testing.T, e *Engine, prop, cfg string, tape *Tape) (s *Sim) {
 	s = NewSim(tape)
+	s.Known = map[string]bool{}
+	for _, k := range strings.Split(os.Getenv("VERIF_KNOWN"), "\n") {
+		if k != "" {
+			s.Known[k] = true
+		}
+	}
 
 	defer func() {
 		if r := recover(); r != nil {
@@ -263,6 +269,16 @@ func WorkerMain(t *testing.T, e *Engine) {
 				}
 				r.Tape = nil
 				out.Samples = append(out.Samples, r)
+			}
+
+			for _, kv := range s.KnownHits() {
+				key := kv.Class + "|" + kv.Witness
+				if !seenKnown[key] {
+					seenKnown[key] = true
+					r := report(idx, s, true)
+					r.Violation = kv
+					out.Known = append(out.Known, r)
+				}
 			}
 
 			if v := s.Failed(); v != nil {
